@@ -87,7 +87,7 @@ TEXT["C13"] = {
     "text": ("Proof: Props/C13.lean proves for every evaluation history of a group and every module configuration: from the first evaluation worse than OK up to and including the first OK again every "
              "notification carries the same non-empty id and start (incident_identity); different incidents have different ids given non-repeating UUIDs (incidents_distinct); at the closing evaluation "
              "each accepting send-close module gets exactly one notification, a close (exactly_one_close); a close is only ever sent after an open incident (no_close_without_incident); several "
-             "groups and clusters interleaved behave per group like that group's own history (run_projection). Tie: real checkAndSendResponseToModules/notifyModule vs the compiled model. The periodic refresh of the group records (real processClusterList/processConsumerList against a scripted storage, incl. a storage too busy to take the consumer-list requests before their one-second timeout) is part of the stream; refresh is modelled (Notifier.refresh) and stalled_refresh_keeps_every_record / stalled_refresh_keeps_incident prove that a refresh whose requests are given up changes no record of a listed cluster. The refresh is characterised from both sides (refresh_keeps_incident, refresh_picks_up_new_groups, refresh_drops_groups_that_left, refresh_drops_clusters_that_left) and run_projection_through_refreshes extends run_projection to histories in which refreshes come anywhere between the evaluation results of any groups: for a group that stays listed, every single-group theorem of C13/C14 holds across them."),
+             "groups and clusters interleaved behave per group like that group's own history (run_projection). Tie: real checkAndSendResponseToModules/notifyModule vs the compiled model. The periodic refresh of the group records (real processClusterList/processConsumerList against a scripted storage, incl. a storage too busy to take the consumer-list requests before their one-second timeout) is part of the stream; refresh is modelled (Notifier.refresh) and stalled_refresh_keeps_every_record / stalled_refresh_keeps_incident prove that a refresh whose requests are given up changes no record of a listed cluster. The refresh is characterised from both sides (refresh_keeps_incident, refresh_picks_up_new_groups, refresh_drops_groups_that_left, refresh_drops_clusters_that_left) and run_projection_through_refreshes extends run_projection to histories in which refreshes come anywhere between the evaluation results of any groups: for a group that stays listed, every single-group theorem of C13/C14 holds across them. Every result of the notifier stream is delivered on the reply channel a REAL responseLoop reads; the zkloop stream (REAL manageEvalLoop under scripted lock losses) is judged here on inc=: a group's incident keeps its id and start across lock loss and re-acquisition."),
     "note": ("Trusted: Lean kernel + standard axioms; harness incl. its clock-freezing/time-shifting hook; UUID freshness assumed. Not modelled: concurrent responses for one group (the real code serialises them per cluster lock)."),
 }
 TEXT["C14"] = {
@@ -96,7 +96,7 @@ TEXT["C14"] = {
     "text": ("Proof: Props/C14.lean proves: an open notification goes only to an accepting module at or above its threshold; within an incident two open notifications to a module are more than its send "
              "interval apart; with send-once at most one per incident; and every incident is announced — at the first evaluation of an incident whose status reaches an accepting module's threshold that "
              "module is notified, for the first and every later incident (every_incident_announced). The last theorem was false of the unchanged code (LastNotify survived incidents): the check found "
-             "it, the defect was repaired in /repo (fix: commit), the model is of the repaired code. reminder_when_interval_elapsed: the interval limits but does not swallow — a module that is not send-once is notified again by the first evaluation of the incident that comes more than its interval after its last notification. The configuration phase is part of the model and of the stream: N conf ops run the REAL Configure of the notifier coordinator on notifier sections with every setting independently present or absent and compare what notifyModule will read per module and the evaluation pace with ModSpec.cfg / minIntervalOf (defaults_are_the_documented_ones, pace_is_the_shortest_interval). Between the evaluator and the incident logic lies responseLoop: its control skeleton is regenerated from the source and pinned (every_result_reaches_the_incident_logic: a reply is skipped only when nil or NOTFOUND, every other one is handed over once). Tie: real notifier code vs the compiled model over all option combinations."),
+             "it, the defect was repaired in /repo (fix: commit), the model is of the repaired code. reminder_when_interval_elapsed: the interval limits but does not swallow — a module that is not send-once is notified again by the first evaluation of the incident that comes more than its interval after its last notification. The configuration phase is part of the model and of the stream: N conf ops run the REAL Configure of the notifier coordinator on notifier sections with every setting independently present or absent and compare what notifyModule will read per module and the evaluation pace with ModSpec.cfg / minIntervalOf (defaults_are_the_documented_ones, pace_is_the_shortest_interval). Between the evaluator and the incident logic lies responseLoop: its control skeleton is regenerated from the source and pinned (every_result_reaches_the_incident_logic: a reply is skipped only when nil or NOTFOUND, every other one is handed over once). Tie: real notifier code vs the compiled model over all option combinations. loop_hands_on_every_evaluation (the response loop hands on exactly the answers that are evaluations: nil and NOTFOUND dropped, nothing else), tied by delivering every result through a REAL responseLoop; the zkloop stream is judged here on inc= (an incident announced before the lock was lost is not announced afresh)."),
     "note": ("Trusted: Lean kernel + standard axioms; harness incl. time shifting (interval boundaries approached to 8 ms, never compared exactly). Reading: send-interval applies within an incident."),
 }
 
@@ -109,7 +109,7 @@ TEXT["C05"] = {
              "since the repair of D16: a zero lifetime reached goswarm as 'never expires'), "
              "and serving a filtered view leaves the cache as a full-view request would (filtered_view_pure). The key-collision defect D5 and D16 were found by the check and repaired in /repo; the "
              "stream also meets a storage subsystem that is slow to accept the evaluator's fetch, clusters differing only in case, and a directed staleness scenario (full view, problems-only view, "
-             "change, problems-only view again just after one lifetime), and two requests for one group in flight together while its entry has expired and storage has changed (cqdup: both answers must be the status now). Glue: bursts of 3-40 concurrent requests go through the REAL evaluator coordinator (real Configure and Start: its request forwarder and the module's main loop) — one reply each, rightly named, none extra (cburst); the forwarder's control skeleton is regenerated from the source and pinned (evaluator_forwarder_hands_over_each_request_once); the /status and /lag routes of the HTTP API are judged too (stream http: the evaluated group is the one named in the URL, also for names with + and %XX). Tie: real CachingEvaluator + goswarm on real storage vs the compiled model."),
+             "change, problems-only view again just after one lifetime), and two requests for one group in flight together while its entry has expired and storage has changed (cqdup: both answers must be the status now). Glue: bursts of 3-40 concurrent requests go through the REAL evaluator coordinator (real Configure and Start: its request forwarder and the module's main loop) — one reply each, rightly named, none extra (cburst); the forwarder's control skeleton is regenerated from the source and pinned (evaluator_forwarder_hands_over_each_request_once); the /status and /lag routes of the HTTP API are judged too (stream http: the evaluated group is the one named in the URL, also for names with + and %XX). Tie: real CachingEvaluator + goswarm on real storage vs the compiled model. storage_forwarder_never_answers_for_storage: the storage coordinator's forwarder, regenerated, blocks until the module takes the request and never closes a reply channel."),
     "note": ("Trusted: Lean kernel + standard axioms; harness incl. cache-ageing hook; goswarm modelled from source. Not modelled: goroutine-per-request scheduling and liveness (observed only), "
              "evaluation time. The tie is sampled."),
 }
@@ -151,7 +151,7 @@ TEXT["C10"] = {
              "leave storage untouched, and after any history every group in any listing was created by an accepted commit or ownership update (storage_tracks_only_accepted); the offsets-topic "
              "reader forwards no offset, ownership, clear or delete request for a rejected group for any bytes (kafka_reader_forwards_only_accepted — false before the repair of the metadata path, "
              "found by the check); a notifier module is never notified, open or close, about a group its lists reject. Tie: storage, decode and notifier streams with list pairs; regexp matching is an oracle bit. "
-             "The Zookeeper reader's gate is not yet tied by a stream (see note). Zookeeper reader: zk_reader_forwards_only_accepted (for every tree, op — Start, any later change, the re-initialisation after a session expiry — and verdict function of the lists, nothing is forwarded for a rejected group) and zk_reader_forwards_accepted_commits, over Model/ZkReader.lean, tied by the zkreader stream; the notifier modules' lists are also observed after the REAL Configure of the notifier coordinator (N conf ops: each module is constructed with its own lists and nothing else), and the storage module's and the Kafka consumer module's after THEIR real Configure (S sconf / D kconf ops: each list key absent, empty or a pattern; Model/StorageConf.lean; storage_accepts_iff, empty_string_sets_no_list: the empty string sets no list); zk_reader_rewalk_is_complete (after Start and after every session expiry each parsable commit of an accepted group in the tree is forwarded again)."),
+             "The Zookeeper reader's gate is not yet tied by a stream (see note). Zookeeper reader: zk_reader_forwards_only_accepted (for every tree, op — Start, any later change, the re-initialisation after a session expiry — and verdict function of the lists, nothing is forwarded for a rejected group) and zk_reader_forwards_accepted_commits, over Model/ZkReader.lean, tied by the zkreader stream; the notifier modules' lists are also observed after the REAL Configure of the notifier coordinator (N conf ops: each module is constructed with its own lists and nothing else), and the storage module's and the Kafka consumer module's after THEIR real Configure (S sconf / D kconf ops: each list key absent, empty or a pattern; Model/StorageConf.lean; storage_accepts_iff, empty_string_sets_no_list: the empty string sets no list); zk_reader_rewalk_is_complete (after Start and after every session expiry each parsable commit of an accepted group in the tree is forwarded again). A refresh of the notifier's group records must not make any module hear anything (stray-notification); list expressions containing blanks are among the generated ones."),
     "note": ("Trusted: Lean kernel + standard axioms; harness; regexp engine as oracle. Partial: the Zookeeper reader path has a single accept gate (resetGroupListWatchAndAdd) that is read, not "
              "modelled; ZK watch dynamics are not modelled."),
 }
@@ -165,7 +165,7 @@ TEXT["C20"] = {
              "(shipped_templates_check, shipped_templates_render); the invariant (a listed partition is non-nil with non-nil Start/End) is proved of the evaluator model for every window, clock and "
              "threshold (problem_partition_has_ends, notifier_view_meets_invariant) and composed (every_status_renders); the data offers exactly Cluster, Group, ID, Start, Extras, Result and the "
              "nine documented helpers (data_offers_documented_fields, helpers_offered). JSON clause: proved — an abstract interpreter (Model/TmplFlow.lean: jsonOk) reads a template as JSON with typed holes, running a JSON pushdown recogniser (Model/Json.lean) over the text; flow_sound/json_sound (Proofs/TmplJson.lean) prove that whatever exec renders for an accepted template is accepted by the recogniser for EVERY value of the data type whose strings are JSON-safe and whose floats are finite, using stack-extension and safe-string lemmas about the automaton (Proofs/JsonPda.lean) and the decimal-digit lemmas of core Lean for printed integers; `decide` shows the four shipped HTTP/Slack templates are accepted (shipped_json_templates_flow), hence shipped_json_templates_wellformed and, composed with the evaluator, every_status_renders_json. The theorem's assumptions about Go's own renderers (EnvOk: time.Format output JSON-safe, %v of a finite float32 a JSON number, json.Marshal output a JSON text) are evaluated by the driver on every real rendering of the run (spec tag envok), and the recogniser itself is compared with json.Valid on every real rendering. Tie: real executeTemplate vs the compiled model on "
-             "shipped and generated templates, comparing error/no-error and the rendered bytes. The partition helpers of the function map are modelled declaratively (Model/TmplHelpers.lean) with topicsbystatus_lists_the_topics_of_each_status (a topic is under a status name iff one of its listed partitions is in that status), topicsbystatus_has_no_repeats and partitioncounts_counts_each_problem_once; every case of the stream also runs both REAL helpers through a template on the case's partition list and compares the sorted result (hlp=). A genuine defect (default-http-delete.tmpl used .Id) was found this way and repaired."),
+             "shipped and generated templates, comparing error/no-error and the rendered bytes. The partition helpers of the function map are modelled declaratively (Model/TmplHelpers.lean) with topicsbystatus_lists_the_topics_of_each_status (a topic is under a status name iff one of its listed partitions is in that status), topicsbystatus_has_no_repeats and partitioncounts_counts_each_problem_once; every case of the stream also runs both REAL helpers through a template on the case's partition list and compares the sorted result (hlp=). A genuine defect (default-http-delete.tmpl used .Id) was found this way and repaired. The extras a notifier module hands its templates are compared with the configured ones after the REAL Coordinator.Configure (N conf, ex=; values with $, ${…}, %)."),
     "note": ("Trusted: Lean kernel + 3 standard axioms; the text/template model for the fragment in use (anything else is `unsup` and rejected by the checker); the fact generator (harness facts); "
              "Go's fmt/time/json renderings are parameters. Not modelled: templates with define/with/variables/parenthesised pipelines (rejected, reported as broken obligation if a shipped template "
              "starts using them). The tie is sampled."),
@@ -195,7 +195,7 @@ TEXT["C17"] = {
              "shift_witness is known finding D8 — a leaderless partition shifts the positions); and that a scrape's series carry only clusters of the current listing, write nothing for a NOTFOUND "
              "group, and are a function of the current state only (scrape_reports_only_listed_clusters, notfound_group_writes_nothing, scrape_cluster_unfolds). Three genuine defects (series of deleted "
              "topics, of expired groups, and series resurrected by a scrape inside the cache lifetime lingered forever) were found by the differential run and repaired in /repo (one fix: commit). "
-             "Tie: real storage + evaluator cache + HTTP + Prometheus registry vs the composed model; every field of every body and every series compared."),
+             "Tie: real storage + evaluator cache + HTTP + Prometheus registry vs the composed model; every field of every body and every series compared. S scrapeslow: a scrape while storage takes no request for 3.3 s waits and then reports what storage holds."),
     "note": ("Trusted: Lean kernel + 3 standard axioms; the Prometheus client as a map from label values to the last value; staleness within the evaluator cache lifetime is C05's allowance; "
              "float64 gauge values exact below 2^53. The tie is sampled."),
 }
@@ -216,7 +216,7 @@ TEXT["C18"] = {
              "model reads only suffixes that occur in the source, and pins the list of table-valued viper reads — each with its enclosing function and multiplicity (no_password_key_read, model_reads_only_source_literals, "
              "table_reads_are_the_modelled_ones). Tie: configurations of every module class and profile shape, with plain and dotted names (incl. the D20 pair), SASL profiles nested inside one another, passwords of several shapes "
              "(leading $, %…%, surrounding blanks, trailing newline), rendered with two random password assignments, all config routes x all names; each response equals the model's field by "
-             "field; plus a containment TEST (labelled as a test) for the concrete password values, raw and JSON-escaped, on both sides."),
+             "field; plus a containment TEST (labelled as a test) for the concrete password values, raw and JSON-escaped, on both sides. The handler under test is the one the whole configuration phase of Start leaves (every coordinator's real Configure, defaults merged into the model's configuration) for configurations without dotted keys whose other sections are accepted; every second such configuration has its notifier section supplied from code (map[string]string extras). Two seeded changes of round 8 (C18-m13, C18-m14) are NOT detected — see DESIGN 10.8."),
     "note": ("Trusted: Lean kernel + 3 standard axioms; viper modelled as a flattened raw-key-path map with its longest-prefix key resolution (validated differentially incl. dotted configured names; empty tables are leaves); log output and process environment not modelled. The tie is sampled. What is proved in general is the _partial statement (Plain configurations); the D20 leak outside it was repaired."),
 }
 
@@ -265,7 +265,7 @@ TEXT["C15"] = {
              "if it has changed); original_protocol_lost_the_wakeup proves, on the model of the ORIGINAL protocol, the defect that was found and repaired (an expiry broadcast between Lock() "
              "returning and Wait() was lost: the instance evaluated without the lock), early_expiry_is_seen that the same trace is now handled. Tie: real loops + real zookeeper coordinator vs "
              "the model's trace on scripted multi-cycle scenarios in real time, incl. the expiry delivered inside Lock(), flaps (expiry + reconnection before the manager runs) and irrelevant "
-             "session events; Lock() calls made while the session is known to be gone are counted (prelock); scenarios in which nobody reads the evaluator channel for a while (stall=) check that a group is still requested at most once per started interval (burst); scenarios with 3-5 refused Lock() calls in a row and with several intervals without the lock between two owned windows."),
+             "session events; Lock() calls made while the session is known to be gone are counted (prelock); scenarios in which nobody reads the evaluator channel for a while (stall=) check that a group is still requested at most once per started interval (burst); scenarios with 3-5 refused Lock() calls in a row and with several intervals without the lock between two owned windows. The notifier stream is judged here too (a refresh that cannot reach storage leaves the group records, LastEval included, alone)."),
     "note": ("Trusted: Lean kernel + 3 standard axioms; the atomic-step abstraction; real-time margins; the fake Zookeeper's semantics. Not modelled: preemption inside steps, the data race on the plain "
              "bool, the non-exclusive RLock around LastEval, Unlock failing after expiry (Burrow panics by design). The tie is sampled."),
 }
